@@ -1,4 +1,4 @@
 ----------------------------- MODULE BadaMassGen -----------------------------
 EXTENDS BadaMass, Json
-Emit == Done => PrintT("@@" \o ToJson([prof |-> prof, dir |-> dir, anchor |-> anchor, mass |-> mass]))
+Emit == Done => PrintT("@@" \o ToJson([prof |-> prof, dir |-> dir, anchor |-> anchor, mass |-> mass, wind |-> [i \in 1..Len(prof) |-> WindAt(wind, i)], windname |-> wind]))
 =============================================================================
